@@ -42,6 +42,20 @@ PROPS = {
         'assumptions': ['ExitStatus::{success, code, signal} consistency on unix (std)', 'the real From impls are one-liners checked against their FromSpecImpl companions (R15)'],
         'not_decided': [],
     },
+    'C20': {
+        'level': 'proof',
+        'explanation': 'In replace mode execute builds argv = command ++ initial arguments with every occurrence of R replaced by the whole line and appends nothing (real body, unit xexec); process_input executes a batch in replace mode only when it holds an argument, and runs nothing on empty input (unit xproc); lines are split at newlines only by the byte reader (unit xread); option normalisation (last of -I/-n/-L wins, -I with -n 1 no conflict, newline delimiter) is decided in unit xopts.',
+        'assumptions': ['str::replace replaces every occurrence (std); the map/collect adapter chain of the replace branch is matched textually and replaced by a helper with that contract (R9)',
+                        'MaxArgs limiter with max_args = 1 gives one line per invocation (C04 limits proof)'],
+        'not_decided': [],
+    },
+    'C07': {
+        'level': 'other',
+        'explanation': 'Printer::print writes exactly lossy(path) followed by the delimiter (unit print); ByteDelimitedArgumentReader::next splits only at NUL and passes every other byte through from_utf8_lossy (unit xread); execute passes initial ++ extra arguments unchanged to Command::args (unit xexec).  Byte-exactness holds for valid UTF-8 only: the lossy conversions alter other input (known finding D6).',
+        'assumptions': ['to_string_lossy / from_utf8_lossy are the identity on valid UTF-8', 'Command::args appends its arguments unchanged', 'the path of an entry is the starting point joined with the names below it (walkdir)'],
+        'not_decided': ['the composition find | xargs as a lemma over the two contracts (L-c07) is stated in DESIGN.md, not machine-checked'],
+        'unclaimed': True,
+    },
 }
 for k in PROPS.values():
     k.setdefault('trusted', [])
